@@ -90,7 +90,12 @@ class ChunkedTransferReader(object):
         elif bytes_left:
             raise NetworkError('Connection closed.')
 
-        newline_data = yield from self._connection.readline()
+        try:
+            newline_data = yield from self._connection.readline()
+        except ValueError as error:
+            raise ProtocolError(
+                'Error reading newline after chunk: {0}'.format(error)
+            ) from error
 
         if not newline_data.endswith(b'\n'):
             raise NetworkError('Connection closed.')
@@ -118,7 +123,11 @@ class ChunkedTransferReader(object):
         trailer_data_list = []
 
         while True:
-            trailer_data = yield from self._connection.readline()
+            try:
+                trailer_data = yield from self._connection.readline()
+            except ValueError as error:
+                raise ProtocolError(
+                    'Invalid trailer: {0}'.format(error)) from error
 
             if not trailer_data.endswith(b'\n'):
                 raise NetworkError('Connection closed.')
